@@ -361,15 +361,28 @@ def rule_r1(ctx) -> List[R.Inst]:
                     src = v.args[0]
                     if isinstance(src, ast.Name) and src.id in _LOCALS:
                         src = _LOCALS[src.id]
+                    # one element per consecutive pair of x: a comprehension over zip(x[:-1], x[1:]) (or zip(x, x[1:]): zip stops at the
+                    # shortest), starmap(f, <that zip>), or a local generator whose body is one loop over that zip with one yield
+                    it = None
                     if isinstance(src, (ast.ListComp, ast.GeneratorExp)) and len(src.generators) == 1 and not src.generators[0].ifs:
                         it = src.generators[0].iter
-                        if isinstance(it, ast.Call) and call_name(it) == "zip" and len(it.args) == 2:
-                            a0, a1 = it.args
-                            if isinstance(a0, ast.Subscript) and isinstance(a1, ast.Subscript) and unparse(a0.value) == unparse(a1.value) and \
-                                    unparse(a0.slice) == ":-1" and unparse(a1.slice) == "1:" and isinstance(a0.value, ast.Name):
-                                lpm = loop_perm(a0.value, sorters, aliases)
-                                if lpm:
-                                    acc = (n.targets[0].id, lpm[0], lpm[1], src, None)
+                    elif isinstance(src, ast.Call) and call_name(src) == "starmap" and len(src.args) == 2:
+                        it = src.args[1]
+                    elif isinstance(src, ast.Call) and isinstance(src.func, ast.Name) and not src.args:
+                        gdef = [d_ for d_ in fn.node.body if isinstance(d_, ast.FunctionDef) and d_.name == src.func.id]
+                        if len(gdef) == 1:
+                            gb = [x for x in gdef[0].body if not (isinstance(x, ast.Expr) and isinstance(x.value, ast.Constant))]
+                            ys = [x for x in ast.walk(gdef[0]) if isinstance(x, (ast.Yield, ast.YieldFrom))]
+                            if len(gb) == 1 and isinstance(gb[0], ast.For) and len(ys) == 1 and isinstance(ys[0], ast.Yield) and \
+                                    not any(isinstance(x, (ast.If, ast.Continue, ast.Break)) for x in ast.walk(gb[0])):
+                                it = gb[0].iter
+                    if isinstance(it, ast.Call) and call_name(it) == "zip" and len(it.args) == 2:
+                        a0, a1 = it.args
+                        x0 = a0.value if isinstance(a0, ast.Subscript) and unparse(a0.slice) == ":-1" else a0
+                        if isinstance(a1, ast.Subscript) and unparse(x0) == unparse(a1.value) and unparse(a1.slice) == "1:" and isinstance(x0, ast.Name):
+                            lpm = loop_perm(x0, sorters, aliases)
+                            if lpm:
+                                acc = (n.targets[0].id, lpm[0], lpm[1], src, None)
         rets = [n for n in walk_no_nested(fn.node) if isinstance(n, ast.Return) and n.value is not None]
         # scatter form: U = np.empty_like(A); U[P] = A; return U   ==   return A[P⁻¹]  (P a permutation)
         for r_ in rets:
